@@ -331,9 +331,64 @@ def run(ctx, chk, tier="quick"):
     sliced = [n for n in ast.walk(f.node) if isinstance(n, ast.Assign) and any(isinstance(t, (ast.Name, ast.Tuple)) and
               any(isinstance(x, ast.Name) and x.id in (A, b) for x in ast.walk(t)) for t in n.targets)
               and any(isinstance(x, ast.Subscript) and isinstance(x.slice, ast.Slice) and isinstance(x.value, ast.Name) and x.value.id in (A, b) for x in ast.walk(n.value))]
-    chk.ob("C05.O1", f.params[0] in it_txt and not sliced, where_of(f, sliced[0] if sliced else outer),
-           "level loop over %s; system truncated before solving: %s" % (it_txt, bool(sliced)),
-           "all levels of the mapping, all assembled rows", key="find_offsets|whole-system")
+    # the arrays that reach the products A^T A / A^T b are the allocated-and-filled ones: never rebound in between
+    rebound = []
+    for nm in (A, b):
+        for x in ast.walk(f.node):
+            if isinstance(x, ast.Name) and x.id == nm and isinstance(x.ctx, ast.Load):
+                par = getattr(x, "parent", None)
+                # uses inside the normal-equation products / the solve call
+                anc = x
+                in_solve = False
+                while anc is not None and anc is not f.node:
+                    if anc is sv or (isinstance(anc, ast.Assign) and any(isinstance(t, ast.Name) and isinstance(sv.args[0], ast.Name) and
+                                                                         t.id in (sv.args[0].id, sv.args[1].id if len(sv.args) > 1 and isinstance(sv.args[1], ast.Name) else "") for t in anc.targets)):
+                        in_solve = True
+                    anc = getattr(anc, "parent", None)
+                if not in_solve:
+                    continue
+                for d in flow.reaching_defs(x) or ():
+                    st = flow.cfg.stmt_of.get(d)
+                    if isinstance(st, ast.Assign):
+                        v = st.value
+                        alloc = isinstance(v, ast.Call) and (full_call_name(mod, v) or "").split(".")[-1] in ("zeros", "empty", "zeros_like", "full")
+                        if not alloc and st not in rebound:
+                            rebound.append(st)
+    chk.ob("C05.O1", f.params[0] in it_txt and not sliced and not rebound, where_of(f, (rebound or sliced or [outer])[0]),
+           "level loop over %s; system changed between assembly and solve: %s" % (it_txt, [ast.unparse(r)[:70] for r in (rebound or sliced)] or "no"),
+           "all levels of the mapping, all assembled rows, each with its multiplicity", key="find_offsets|whole-system",
+           why="dropping, de-duplicating or re-weighting rows changes the objective: identical rows are weights in least squares")
+    # levels dropped before fitting: exactly those crossed by a single interval
+    prunes = [n for n in ast.walk(f.node) if isinstance(n, ast.Delete) and any(isinstance(t, ast.Subscript) and isinstance(t.value, ast.Name)
+              and t.value.id == f.params[0] for t in n.targets)]
+    for pr in prunes:
+        cond = None
+        a = getattr(pr, "parent", None)
+        while a is not None and a is not f.node:
+            if isinstance(a, ast.If):
+                cond = a.test
+                break
+            a = getattr(a, "parent", None)
+        okp = False
+        if cond is not None:
+            from ..norm import py_compare
+            try:
+                nf = py_compare(cond, callname=lambda c: "len" if isinstance(c.func, ast.Name) and c.func.id == "len" else None)
+                want1 = py_compare(ast.parse("len(seq) == 1", mode="eval").body)
+                want2 = py_compare(ast.parse("len(seq) < 2", mode="eval").body)
+                want3 = py_compare(ast.parse("len(seq) <= 1", mode="eval").body)
+                # rename the subject
+                subj = [x for x in ast.walk(cond) if isinstance(x, ast.Call) and isinstance(x.func, ast.Name) and x.func.id == "len"]
+                if len(subj) == 1 and isinstance(subj[0].args[0], ast.Name):
+                    nm = subj[0].args[0].id
+                    def ren(w):
+                        return (w[0], type(w[1])({tuple((a_.replace("seq", nm), e_) for a_, e_ in k): v for k, v in w[1].terms.items()}))
+                    okp = nf in (ren(want1), ren(want2), ren(want3))
+            except NotAlgebraic:
+                okp = False
+        chk.ob("C05.O1", okp, where_of(f, pr), "levels dropped when `%s`" % (ast.unparse(cond) if cond is not None else "unconditionally"),
+               "only levels crossed by a single interval are dropped (their rows are identically zero)",
+               key="find_offsets|pruning", why="dropping a level shared by two or more intervals removes its residuals from the objective")
     # ---------------- O3: reference position
     if ref_name:
         probe = None
